@@ -132,6 +132,7 @@ where
     SLOT_START_MS[slot].store(wall_ms(), Ordering::Relaxed);
 
     wtransport::verif::reset();
+    crate::sut::set_app_pace_ms(0);
     CAPTURE.with(|c| *c.borrow_mut() = Some(Vec::new()));
 
     let mut seed_bytes = [0u8; 32];
